@@ -307,6 +307,7 @@ class Runner:
         self.reset_op = None if self.cfg.get("case_mode") else self.cfg.get("reset_op", "reset")
         self.tmp = tempfile.mkdtemp(prefix=f"verif_{prop}_", dir=os.environ.get("VERIF_TMP", "/var/tmp"))
         self.driver_args = self.cfg.get("driver_args", [])
+        self.panics = {}
 
     def cleanup(self):
         shutil.rmtree(self.tmp, ignore_errors=True)
@@ -319,6 +320,8 @@ class Runner:
         env = dict(env, VH_OUT=out, TMPDIR=tdir, VH_TIER=self.tier)
         rc, hout = run_harness(binpath, env, timeout)
         shutil.rmtree(tdir, ignore_errors=True)
+        if os.path.exists(out + ".panics"):   # stacks of recovered panics (vhlib.Try)
+            self.panics[tag] = open(out + ".panics", errors="replace").read()[:8000]
         lines = open(out).read().split("\n") if os.path.exists(out) else []
         if lines and lines[-1] == "":
             lines.pop()
@@ -523,6 +526,7 @@ def main(argv):
             rp = os.path.join(VERIF, "replays", f"{prop}-{seed}-{nviol}.json")
             json.dump(dict(property=prop, engine=UR.engine, seed=seed, tier=tier, signature=sig, flag=f["text"],
                            reproducible_by_replay=repro, trace=[l for l in shr if not l.startswith("#")],
+                           **({"recovered_panic_stacks": UR.panics[tag]} if "panic" in f["text"] and tag in UR.panics else {}),
                            replay_cmd=f"bin/check {prop} --replay {rp}"), open(rp, "w"), indent=1)
             print(f"VIOLATION property={prop} replay={rp}")
             violations.append(sig)
@@ -551,6 +555,7 @@ def main(argv):
                     json.dump(dict(property=prop, engine=UR.engine, seed=seed, tier=tier, signature=b[1], flag=f["text"],
                                    broken="correspondence model<->implementation", reproducible_by_replay=repro,
                                    trace=[l for l in shr if not l.startswith("#")],
+                                   **({"recovered_panic_stacks": UR.panics[tag]} if "panic" in f["text"] and tag in UR.panics else {}),
                                    replay_cmd=f"bin/check {prop} --replay {rp}"), open(rp, "w"), indent=1)
                 print(f"VIOLATION property={prop} replay={rp} no-failing-input-found")
                 violations.append(b[1] if b[0] != "obligation" else "obligation")
